@@ -71,7 +71,7 @@ def gen(rng, tier):
             t1, t2 = t2, t1
         cases.append({'stack': stack, 't1': t1, 't2': t2, 'nvars': nv, 'engsalt': rng.randrange(4)})
     cases.extend(exhaustive_pairs(tier))
-    cases.extend(S.gen_case(rng) for _ in range(900 if tier == 'quick' else 15000))
+    cases.extend(S.gen_case(rng) for _ in range(900 if tier == 'quick' else 10000))
     cases.extend(S.exhaustive(tier))
     return cases
 
